@@ -166,14 +166,20 @@ struct Node {
 }
 
 fn parse_tree(out: &str) -> Vec<Node> {
-    let mut nodes = Vec::new();
-    for line in out.lines() {
+    // Rows first: (depth, text).  A label may contain line breaks: a line without a branch glyph that is not a
+    // top-level row (those are the first line and the lines after a blank one) continues the previous row.
+    let mut rows: Vec<(usize, String)> = Vec::new();
+    let mut prev_blank = true;
+    let text = out.strip_suffix('\n').unwrap_or(out);
+    for line in text.split('\n') {
         if line.is_empty() {
+            prev_blank = true;
             continue;
         }
         let chars: Vec<char> = line.chars().collect();
         let mut i = 0;
         let mut depth = 0;
+        let mut has_branch = false;
         loop {
             if i + 3 <= chars.len() {
                 let g: String = chars[i..i + 3].iter().collect();
@@ -185,18 +191,59 @@ fn parse_tree(out: &str) -> Vec<Node> {
                 if g == "├─ " || g == "╰─ " {
                     depth += 1;
                     i += 3;
+                    has_branch = true;
                 }
             }
             break;
         }
-        let rest: String = chars[i..].iter().collect();
-        let (name, ignored) = match rest.strip_suffix("(ignored)") {
-            Some(r) if r.ends_with("  ") => (r.trim_end_matches(' ').to_string(), true),
-            _ => (rest.clone(), false),
-        };
-        nodes.push(Node { depth, name, ignored });
+        if !has_branch && !prev_blank && !rows.is_empty() {
+            let last = rows.last_mut().unwrap();
+            last.1.push('\n');
+            last.1.push_str(line);
+        } else {
+            let rest: String = if has_branch { chars[i..].iter().collect() } else { line.to_string() };
+            rows.push((if has_branch { depth } else { 0 }, rest));
+        }
+        prev_blank = false;
     }
-    nodes
+    rows.into_iter()
+        .map(|(depth, rest)| {
+            let (name, ignored) = match rest.strip_suffix("(ignored)") {
+                Some(r) if r.ends_with("  ") => (r.trim_end_matches(' ').to_string(), true),
+                _ => (rest.clone(), false),
+            };
+            Node { depth, name, ignored }
+        })
+        .collect()
+}
+
+/// The lines of a terse listing; a path may contain line breaks: a line ends with ": benchmark".
+fn terse_lines_of(out: &str) -> Vec<String> {
+    let text = out.strip_suffix('\n').unwrap_or(out);
+    if text.is_empty() {
+        return Vec::new();
+    }
+    let mut res: Vec<String> = Vec::new();
+    let mut cur: Option<String> = None;
+    for line in text.split('\n') {
+        let joined = match cur.take() {
+            Some(mut c) => {
+                c.push('\n');
+                c.push_str(line);
+                c
+            }
+            None => line.to_string(),
+        };
+        if joined.ends_with(": benchmark") {
+            res.push(joined);
+        } else {
+            cur = Some(joined);
+        }
+    }
+    if let Some(c) = cur {
+        res.push(c);
+    }
+    res
 }
 
 fn join_path(parent: &str, name: &str) -> String {
@@ -265,7 +312,7 @@ fn canon_tree(out: &ChildOut, pair_calls: bool) -> String {
 }
 
 fn canon_terse(out: &ChildOut) -> String {
-    let mut lines: Vec<String> = out.stdout.lines().map(enc).collect();
+    let mut lines: Vec<String> = terse_lines_of(&out.stdout).iter().map(|l| enc(l)).collect();
     if EXE.with(|e| e.borrow().is_some()) {
         // constructor order is not fixed
         lines.sort();
@@ -370,7 +417,7 @@ fn run_case(line: &str) -> String {
         let sec = match act {
             'T' => {
                 let o = run_child(line, "main", true, &with(cli_args(&sp, None, false), &["--list", "--format", "terse"]));
-                terse_lines = Some(o.stdout.lines().map(|s| s.to_string()).collect());
+                terse_lines = Some(terse_lines_of(&o.stdout));
                 canon_terse(&o)
             }
             'R' => canon_tree(&run_child(line, "main", false, &with(cli_args(&sp, None, false), &["--test"])), true),
@@ -450,11 +497,9 @@ fn run_case(line: &str) -> String {
             'A' => canon_tree(&run_child(line, "list_benches", false, &cli_args(&sp, None, false)), false),
             'E' => {
                 let lines = terse_lines.clone().unwrap_or_else(|| {
-                    run_child(line, "main", true, &with(cli_args(&sp, None, false), &["--list", "--format", "terse"]))
-                        .stdout
-                        .lines()
-                        .map(|s| s.to_string())
-                        .collect()
+                    terse_lines_of(
+                        &run_child(line, "main", true, &with(cli_args(&sp, None, false), &["--list", "--format", "terse"])).stdout,
+                    )
                 });
                 let mut lines = lines;
                 if sp.cfg.exe.is_some() {
